@@ -117,8 +117,9 @@ def h264_key(rng, extra=True):
     parts = []
     if extra and rng.chance(1, 4):
         parts.append(sc(rng) + h264_nal(rng, 9, 1))  # AUD
-    parts.append(sc(rng) + h264_nal(rng, 7, rng.range(3, 14)))
-    parts.append(sc(rng) + h264_nal(rng, 8, rng.range(1, 5)))
+    # parameter sets of every small length as well (1..4-byte SPS: the avcC builder reads bytes 1..3)
+    parts.append(sc(rng) + h264_nal(rng, 7, rng.choice([0, 1, 2, 2, 3]) if rng.chance(1, 6) else rng.range(3, 14)))
+    parts.append(sc(rng) + h264_nal(rng, 8, 0 if rng.chance(1, 10) else rng.range(1, 5)))
     if extra and rng.chance(1, 4):
         parts.append(sc(rng) + h264_nal(rng, 6, 3))  # SEI
     if extra and rng.chance(1, 5):
@@ -137,7 +138,13 @@ def hevc_nal(rng, typ, n=None):
 
 
 def h265_key(rng, extra=True):
-    parts = [sc(rng) + hevc_nal(rng, 32), sc(rng) + hevc_nal(rng, 33, rng.range(1, 20)), sc(rng) + hevc_nal(rng, 34)]
+    short = rng.chance(1, 6)
+    parts = [sc(rng) + hevc_nal(rng, 32, rng.range(0, 3) if short else None),
+             sc(rng) + hevc_nal(rng, 33, rng.range(0, 4) if short else rng.range(1, 20)),
+             sc(rng) + hevc_nal(rng, 34, rng.range(0, 2) if short else None)]
+    if short and rng.chance(1, 3):
+        k = rng.below(3)
+        parts[k] = parts[k][:-1] if len(parts[k]) > 4 else parts[k]     # a parameter set cut inside its 2-byte header
     if extra and rng.chance(1, 4):
         parts.insert(0, sc(rng) + hevc_nal(rng, 35, 1))
     if extra and rng.chance(1, 4):
